@@ -520,6 +520,7 @@ Record FreshPre (B : list Z) (w : cworld) (k : nat) : Prop := {
   fp_best : best w = B;
   fp_node : PNode B (node_sync w) k;
   fp_hc : handshake_complete (node_sync w) = false;
+  fp_was : was_in_sync (node_sync w) = false;
   fp_chan : exists invs, cw_chan w = MVersion :: invs /\ Forall is_inv invs;
   fp_reqs : cw_reqs w = [];
 }.
@@ -530,7 +531,7 @@ Proof.
   intros F. destruct (fp_chan _ _ _ F) as (invs & Hc & Hinv). pose proof (fp_node _ _ _ F) as P.
   pose proof (pn_chainB _ _ _ _ P) as HcB. pose proof (pn_k _ _ _ _ P) as Hk. pose proof (pn_saved _ _ _ _ P) as Hsv.
   pose proof (handshake_steps MAXR LIM HT HDT BT DELTA M parent_of w invs Hc Hinv (fp_reqs _ _ _ F)
-                (fp_hc _ _ _ F) (pn_ready _ _ _ _ P) (pn_req _ _ _ _ P)) as E.
+                (fp_hc _ _ _ F) (pn_ready _ _ _ _ P) (pn_pend _ _ _ _ P) (fp_was _ _ _ F) (pn_req _ _ _ _ P)) as E.
   cbv zeta in E. rewrite (fp_best _ _ _ F) in E.
   assert (Hemp : requests_empty (rq (node_sync w)) = true).
   { unfold requests_empty, total_requests. rewrite (pn_req _ _ _ _ P), (pn_toreq _ _ _ _ P). reflexivity. }
@@ -587,7 +588,7 @@ Definition clean_behind_pre (parent_of : Z -> Z) (w : cworld) : bool :=
   match requested (rq s), to_request (rq s) with [], [] => true | _, _ => false end &&
   (pending (rq s) =? 0) &&
   match B !! (k - 1)%nat with Some x => x =? last_saved (rq s) | None => false end &&
-  negb (handshake_complete s) && negb (ready s) && negb (pending_sync s) &&
+  negb (handshake_complete s) && negb (ready s) && negb (pending_sync s) && negb (was_in_sync s) &&
   match cw_chan w with MVersion :: invs => forallb is_invb invs | _ => false end &&
   match cw_reqs w with [] => true | _ => false end.
 
